@@ -1,7 +1,8 @@
 // Package c12 decides property C12 (fragments are grouped into segments
 // faithfully and segment indexes tile the media). Files are assembled by
 // gen/frag from library-encoded boxes with the ground truth of every box
-// position; three oracles observe DecodeFile/DecodeFileSR, the default
+// position (first family) and then rewritten on the byte level into other
+// legal fragment shapes (second family, gen/frag/reshape.go); three oracles observe DecodeFile/DecodeFileSR, the default
 // segment-mode Encode/EncodeSW, and UpdateSidx (+ the add-sidx binary). All
 // positions and index fields are read from the produced bytes with
 // ref/boxwalk and ref/frag.
@@ -36,7 +37,14 @@ func init() {
 			"Oracle 1 (grouping): weak form always; strong form (segment boundaries exactly at the ground-truth delimiters) only when a single mechanism is present. " +
 			"Oracle 2: default segment-mode Encode and EncodeSW keep ftyp, moov and every emsg/moof/mdat byte-identical and in order. " +
 			"Oracle 3: UpdateSidx(addIfNotExists, nonZeroEPT drawn) then Encode (segment mode, and box-tree mode when the top level holds only boxes that segment mode writes too), and for 1 file in 4 the add-sidx binary: the first top-level sidx read from the output bytes tiles the media. " +
-			"Non-trivial = decoded by at least one reader and holding >= 2 fragments; distinct_nontrivial counts distinct (file, flags).",
+			"Files with a 64-bit mdat header (and 1 in 8 of the others) are additionally decoded with DecodeFile + DecModeLazyMdat: oracle 1 against the ground truth, and the partition must equal the non-lazy one (oracles 2/3 do not apply: a lazy mdat is written without payload). " +
+			"Second family, 'reshaped files' (every case, after the first family, same history): gen/frag.Reshape rewrites 5 of 6 fragments of the built file byte by byte (no mp4ff call) into equivalent legal shapes with the same per-track sample lists: " +
+			"every traf split into 1..3 trafs of the same track (own tfhd, tfdt = decode time of its first sample), round-robin interleaved with the other tracks' trafs or adjacent; every traf's samples split into 1..4 truns; " +
+			"duration/size/flags per traf drawn from {per-sample trun fields, tfhd default, trex default, unused tfhd default} as far as the values allow, first_sample_flags where all but the first sample have the default, cto present or absent, trun version 0/1; " +
+			"run data contiguous in run order | permuted | separated by filler (also in front of the first and after the last run) | both, one data_offset per run (1 in 3 of the runs that directly follow their predecessor in the same traf carry none); 8- or 16-byte mdat header; " +
+			"sidx references/first_offset and tfra moof offsets re-pointed to the moved boxes. The rewritten file is expanded with ref/frag and compared, fragment by fragment and track by track, with the history (payload bytes, size, duration, flags, cto, decode time; data inside the fragment's own mdat): a mismatch is inconclusive. " +
+			"The same readers, flags (redrawn for 1 in 3) and oracles 1-3 run on it; oracle 3's durations (both families) come from the history and are cross-checked against ref/frag's expansion of the moofs inside each referenced byte range of the output (disagreement = inconclusive). " +
+			"Non-trivial = decoded by at least one reader and holding >= 2 fragments (first family) / at least one rewritten fragment (second family); distinct_nontrivial counts distinct (file, flags).",
 		Assumptions: []string{
 			"mixed delimiter layouts (styp on some segments, styp + flag, sidx + styp, segment-level sidx without styp, mfra entries + emsg ...) get only the weak grouping form: the statement lists the mechanisms as alternatives",
 			"the mfra mechanism is in force only with DecISMFlag through DecodeFile (DecodeFileSR cannot seek and documents nothing else); counted as ism_flag_without_effect otherwise",
@@ -44,6 +52,9 @@ func init() {
 			"prft/free/uuid/unknown top-level boxes are outside Init/segments and documented to be dropped by segment-mode encode: oracle 2 compares ftyp/moov/emsg/moof/mdat only",
 			"EPT is compared only when the reference track has a sample in the first fragment of the first segment and its presentation time is >= 0",
 			"UpdateSidx returning an error is outside the property (counted)",
+			"reshaped family: 'byte-identically' covers the decoded data_offset fields of every trun, whatever the number of truns/trafs and wherever the data lies in the mdat (filler bytes are legal: 8.8.8 only requires the offsets to point at the data); the mdat header form (8/16 bytes) is part of the fragment's bytes",
+			"reshaped family: with several trafs of the reference track in one moof, 'the summed sample durations of the reference track in that segment' sums all of them, and the first presentation time (EPT clause) is that of the first sample of the first of them",
+			"tfra traf_number/trun_number/sample_number are not re-pointed by the rewriter (the decoder uses moof_offset only)",
 		},
 		NumCases: func(env *runner.Env) int {
 			if env.Tier == "thorough" {
@@ -186,6 +197,13 @@ type env struct {
 	// sidxClass, when set (oracle 3), replaces the cause: number of top-level
 	// sidx boxes and the largest number of sidx boxes in one segment as decoded
 	sidxClass string
+	// reshaped family: shape of every in-file fragment (nil for files as built) and the
+	// fragments a finding is about (nil: the whole file)
+	shapes   []genfrag.FragShape
+	keyFrags []int
+	// keyRefTrafs: the finding depends only on the number of trafs of the reference track (EPT)
+	keyRefTrafs bool
+	lazy        bool // DecodeFile with DecModeLazyMdat
 }
 
 func (e *env) viol(key, what string) {
@@ -203,18 +221,68 @@ func (e *env) viol(key, what string) {
 // presence (the strong-form keys carry their mechanism themselves).
 func (e *env) cause() string {
 	fl := map[mp4.DecFileFlags]string{0: "noflag", mp4.DecISMFlag: "ism", mp4.DecStartOnMoof: "som", mp4.DecISMFlag | mp4.DecStartOnMoof: "ism+som"}[e.flags]
+	if e.shapes != nil && e.keyFrags != nil {
+		// reshaped family, finding about particular fragments: their shape class
+		if e.keyRefTrafs {
+			n, ref := 0, e.h.RefTrack().ID
+			for _, fi := range e.keyFrags {
+				if fi >= 0 && fi < len(e.shapes) {
+					for _, t := range e.shapes[fi].Trafs {
+						if t.Track == ref {
+							n++
+						}
+					}
+				}
+			}
+			if n > 1 {
+				return "reshaped-reftrafsN"
+			}
+			return "reshaped-reftrafs1"
+		}
+		return "reshaped-" + e.shapeClass(e.keyFrags)
+	}
+	pre := ""
+	if e.shapes != nil {
+		pre = "reshaped/"
+	}
 	if e.sidxClass != "" {
-		return e.sidxClass
+		return pre + e.sidxClass
 	}
 	if e.lay.hasEmsg {
 		fl += "+emsg"
 	}
-	return fl
+	if e.lazy {
+		fl += "+lazy"
+	}
+	return pre + fl
+}
+
+// shapeClass merges the shapes of the given in-file fragments into one class name.
+func (e *env) shapeClass(frs []int) string {
+	var m genfrag.FragShape
+	for _, fi := range frs {
+		if fi < 0 || fi >= len(e.shapes) || !e.shapes[fi].Rewritten {
+			continue
+		}
+		s := e.shapes[fi]
+		m.Rewritten = true
+		if s.MaxTruns > m.MaxTruns {
+			m.MaxTruns = s.MaxTruns
+		}
+		if s.MaxTrafsPerTrack > m.MaxTrafsPerTrack {
+			m.MaxTrafsPerTrack = s.MaxTrafsPerTrack
+		}
+		m.Permuted = m.Permuted || s.Permuted
+		m.Gapped = m.Gapped || s.Gapped
+	}
+	return m.Class()
 }
 
 func (e *env) decode() (f *mp4.File, err error, pi *runner.PanicInfo) {
 	pi = e.c.Guard(func() {
-		if e.reader == "DecodeFile" {
+		if e.lazy {
+			f, err = mp4.DecodeFile(bytes.NewReader(e.b.Bytes), mp4.WithDecodeFlags(e.flags), mp4.WithDecodeMode(mp4.DecModeLazyMdat))
+		} else if e.reader == "DecodeFile" {
 			f, err = mp4.DecodeFile(bytes.NewReader(e.b.Bytes), mp4.WithDecodeFlags(e.flags))
 		} else {
 			f, err = mp4.DecodeFileSR(bits.NewFixedSliceReader(e.b.Bytes), mp4.WithDecodeFlags(e.flags))
@@ -247,14 +315,48 @@ func run(c *runner.Ctx, idx int) {
 		}
 	}
 	o3add, o3nz, tool := c.Rand.Chance(3, 4), c.Rand.Bool(), c.Rand.Chance(1, 4)
-	decoded := false
-	for _, reader := range []string{"DecodeFile", "DecodeFileSR"} {
-		e := &env{c: c, h: h, b: b, flags: flags, reader: reader}
-		e.lay = classify(h, b, flags, reader)
-		c.Seen("layout_class", e.lay.class)
-		c.Seen("strong_form", reader+":"+orNone(e.lay.strong))
-		if flags&mp4.DecISMFlag != 0 && h.Layout.Mfra > 0 && reader != "DecodeFile" {
-			c.Count("ism_flag_without_effect", 1)
+	decoded := runFile(c, h, b, nil, flags, o3add, o3nz, tool)
+	if decoded && len(b.FragsInFile()) >= 2 {
+		c.Nontrivial(runner.Hash64(b.Bytes, []byte{byte(flags)}))
+	}
+	if c.WantSample() {
+		var ps []string
+		for _, p := range b.Pieces {
+			ps = append(ps, p.Type)
+		}
+		c.Sample(map[string]interface{}{"boxes": strings.Join(ps, " "), "dec_flags": flags, "tracks": len(h.Tracks), "bytes": len(b.Bytes)})
+	}
+	// second family: the same history, fragments rewritten on the byte level (all draws
+	// come after those of the first family)
+	runReshaped(c, h, b, flags)
+}
+
+// runFile runs the readers and oracles on one file; shapes is nil for a file as built.
+func runFile(c *runner.Ctx, h *genfrag.History, b *genfrag.Built, shapes []genfrag.FragShape, flags mp4.DecFileFlags, o3add, o3nz, tool bool) (decoded bool) {
+	// lazy mdat decoding as one more decode path: always when some mdat has a 64-bit header
+	large := false
+	for _, p := range b.Pieces {
+		if p.Type == "mdat" && p.Start+4 <= len(b.Bytes) && b.Bytes[p.Start+3] == 1 && b.Bytes[p.Start] == 0 && b.Bytes[p.Start+1] == 0 && b.Bytes[p.Start+2] == 0 {
+			large = true
+		}
+	}
+	lazy := large || c.Rand.Chance(1, 8)
+	var partDF partition
+	for _, reader := range []string{"DecodeFile", "DecodeFileSR", "DecodeFile-lazy"} {
+		e := &env{c: c, h: h, b: b, flags: flags, reader: reader, shapes: shapes}
+		if reader == "DecodeFile-lazy" {
+			if !lazy {
+				continue
+			}
+			e.reader, e.lazy = "DecodeFile", true
+		}
+		e.lay = classify(h, b, flags, e.reader)
+		if !e.lazy {
+			c.Seen("layout_class", e.lay.class)
+			c.Seen("strong_form", reader+":"+orNone(e.lay.strong))
+			if flags&mp4.DecISMFlag != 0 && h.Layout.Mfra > 0 && reader != "DecodeFile" {
+				c.Count("ism_flag_without_effect", 1)
+			}
 		}
 		f, err, pi := e.decode()
 		if pi != nil {
@@ -272,6 +374,21 @@ func run(c *runner.Ctx, idx int) {
 		if !ok {
 			continue
 		}
+		if e.lazy {
+			// a lazily decoded mdat is written without payload: oracles 2 and 3 do not apply. The
+			// partition and every StartPos were checked against the ground truth by oracle 1;
+			// additionally the partition must be the one of the non-lazy decode.
+			c.Seen("lazy_decode", fmt.Sprintf("large_mdat=%v strong=%s", large, orNone(e.lay.strong)))
+			if partDF != nil && fmt.Sprint(partDF) != fmt.Sprint(part) {
+				e.viol("grouping-lazy/partition-differs", fmt.Sprintf("lazy decode groups the fragments as %v, the non-lazy decode as %v", part, partDF))
+			} else if partDF != nil {
+				c.Count("lazy_partition_equals_nonlazy", 1)
+			}
+			continue
+		}
+		if reader == "DecodeFile" {
+			partDF = part
+		}
 		e.oracle2(f)
 		// oracle 3 on a fresh decode (UpdateSidx mutates)
 		f3, err, pi := e.decode()
@@ -282,15 +399,96 @@ func run(c *runner.Ctx, idx int) {
 			e.addSidxTool(part, o3nz)
 		}
 	}
-	if decoded && len(b.FragsInFile()) >= 2 {
-		c.Nontrivial(runner.Hash64(b.Bytes, []byte{byte(flags)}))
+	return decoded
+}
+
+func trafPattern(s genfrag.FragShape) string {
+	letters := map[uint32]byte{}
+	var out []byte
+	for _, t := range s.Trafs {
+		l, ok := letters[t.Track]
+		if !ok {
+			l = byte('A' + len(letters))
+			letters[t.Track] = l
+		}
+		out = append(out, l)
+	}
+	return string(out)
+}
+
+// runReshaped is the second family: the fragments of the built file are rewritten
+// byte by byte into equivalent legal shapes (gen/frag.Reshape) and the same readers
+// and oracles run on the result.
+func runReshaped(c *runner.Ctx, h *genfrag.History, b *genfrag.Built, flags mp4.DecFileFlags) {
+	r := c.Rand
+	nb, shapes, err := genfrag.Reshape(b, r)
+	if err != nil {
+		c.Inconclusive("reshaped family: the rewritten file does not expand to the history's samples (generator matter): " + short(err.Error()))
+		return
+	}
+	if r.Chance(1, 3) {
+		flags = mp4.DecFileFlags(r.PickInt(0, 0, int(mp4.DecISMFlag), int(mp4.DecStartOnMoof), int(mp4.DecISMFlag|mp4.DecStartOnMoof)))
+	}
+	o3add, o3nz, tool := r.Chance(7, 8), r.Bool(), r.Chance(1, 8)
+	ref := h.RefTrack().ID
+	rewritten := 0
+	for _, s := range shapes {
+		if !s.Rewritten {
+			c.Count("reshaped_fragments_kept_as_built", 1)
+			continue
+		}
+		rewritten++
+		c.Count("reshaped_fragments_rewritten", 1)
+		c.Seen("reshaped_frag_class", s.Class())
+		lay := s.Layout()
+		if s.LeadGap {
+			lay += "+lead"
+		}
+		if s.TrailGap {
+			lay += "+trail"
+		}
+		c.Seen("reshaped_data_layout", lay)
+		c.Seen("reshaped_mdat_header_bytes", map[bool]string{false: "8", true: "16"}[s.LargeMdat])
+		c.Seen("reshaped_traf_order", trafPattern(s))
+		c.Seen("reshaped_runs_per_moof", fmt.Sprint(s.Runs))
+		refTrafs := 0
+		for _, t := range s.Trafs {
+			c.Seen("reshaped_truns_per_traf", fmt.Sprint(t.Truns))
+			if t.Part == 0 {
+				c.Seen("reshaped_trafs_per_track_per_moof", fmt.Sprint(t.Parts))
+			}
+			for _, src := range t.Sources {
+				c.Seen("reshaped_field_source", src)
+			}
+			c.Count("reshaped_truns_without_data_offset", int64(t.NoDataOffset))
+			if t.Track == ref {
+				refTrafs++
+			}
+		}
+		if refTrafs > 1 {
+			c.Count("reshaped_moofs_with_several_trafs_of_the_reference_track", 1)
+		}
+		if len(s.Trafs) == 1 && s.MaxTruns > 1 && (s.Permuted || s.Gapped || s.SizesFromDefaults) {
+			c.Count("reshaped_single_traf_multi_trun_noncontiguous_or_default_sizes", 1)
+		}
+		if s.Runs == 1 && s.LeadGap {
+			c.Count("reshaped_single_trun_with_lead_gap", 1)
+		}
+	}
+	if rewritten == 0 {
+		c.Count("reshaped_files_without_rewritten_fragment", 1)
+		return
+	}
+	decoded := runFile(c, h, nb, shapes, flags, o3add, o3nz, tool)
+	if decoded {
+		c.Nontrivial(runner.Hash64(nb.Bytes, []byte{byte(flags), 'r'}))
 	}
 	if c.WantSample() {
 		var ps []string
-		for _, p := range b.Pieces {
-			ps = append(ps, p.Type)
+		for _, s := range shapes {
+			ps = append(ps, fmt.Sprintf("%s[%s %s]", trafPattern(s), s.Class(), s.Layout()))
 		}
-		c.Sample(map[string]interface{}{"boxes": strings.Join(ps, " "), "dec_flags": flags, "tracks": len(h.Tracks), "bytes": len(b.Bytes)})
+		c.Sample(map[string]interface{}{"family": "reshaped", "fragments": strings.Join(ps, " "), "dec_flags": flags, "bytes": len(nb.Bytes)})
 	}
 }
 
@@ -497,6 +695,20 @@ func (e *env) oracle1(f *mp4.File) (partition, bool) {
 	return part, true
 }
 
+// fragOrdinal maps a global fragment index (Piece.Frag) to its ordinal among the in-file fragments.
+func (e *env) fragOrdinal(gi int) int {
+	k := 0
+	for i, f := range e.b.Frags {
+		if i == gi {
+			return k
+		}
+		if f.InFile {
+			k++
+		}
+	}
+	return -1
+}
+
 func childTypes(fr *mp4.Fragment) string {
 	var t []string
 	for _, c := range fr.Children {
@@ -557,8 +769,9 @@ func (e *env) oracle2(f *mp4.File) {
 				bn = append(bn, n)
 			}
 		}
-		bad := ""
+		bad, badAt := "", 0
 		for i := 0; i < len(a) || i < len(bn); i++ {
+			badAt = i
 			switch {
 			case i >= len(bn):
 				bad = fmt.Sprintf("%s at input offset %d is missing from the output", a[i].Type, a[i].Start)
@@ -574,7 +787,11 @@ func (e *env) oracle2(f *mp4.File) {
 			}
 		}
 		if bad != "" {
+			if e.shapes != nil && badAt < len(a) && a[badAt].Frag >= 0 {
+				e.keyFrags = []int{e.fragOrdinal(a[badAt].Frag)}
+			}
 			e.viol("reencode/"+name+"-differs", bad)
+			e.keyFrags = nil
 			continue
 		}
 		e.c.Count("oracle2_held", 1)
@@ -721,6 +938,16 @@ func (e *env) checkIndex(tag string, out []byte, f *mp4.File, part partition, ha
 		e.viol("sidx/"+tag+"/timescale", fmt.Sprintf("timescale %d, reference track %d has %d", sx.Timescale, ref.ID, ref.Timescale))
 		return
 	}
+	// second ground truth: the independent expansion of the output bytes inside each referenced byte range
+	exp, xerr := reffrag.ExpandFile(out, nil)
+	if xerr == nil && (exp.Init == nil || exp.Init.ReferenceTrack() == nil || exp.Init.ReferenceTrack().ID != ref.ID) {
+		e.c.Inconclusive("oracle 3: the reference reader picks another reference track than the history")
+		return
+	}
+	if xerr != nil {
+		e.c.Count("oracle3_output_not_expandable_by_reference_reader", 1)
+	}
+	at = sx.Anchor()
 	for k, r := range sx.Refs {
 		var d uint64
 		for _, fi := range part[k] {
@@ -728,12 +955,29 @@ func (e *env) checkIndex(tag string, out []byte, f *mp4.File, part partition, ha
 				d += uint64(s.Dur)
 			}
 		}
+		lo, hi := at, at+uint64(r.Size)
+		at = hi
+		if xerr == nil {
+			var dx uint64
+			for _, m := range exp.Moofs {
+				if uint64(m.Start) >= lo && uint64(m.Start) < hi {
+					dx += m.TrackDuration(ref.ID)
+				}
+			}
+			if dx != d {
+				e.c.Inconclusive(fmt.Sprintf("oracle 3: history and reference reader disagree on the duration of segment %d", k))
+				return
+			}
+			e.c.Count("oracle3_duration_ground_truths_agree", 1)
+		}
 		if d > 0xffffffff {
 			e.c.Count("oracle3_duration_exceeds_32_bits", 1)
 			continue
 		}
 		if uint64(r.Duration) != d {
+			e.keyFrags = part[k]
 			e.viol("sidx/"+tag+"/duration", fmt.Sprintf("reference %d: subsegment_duration %d, the samples of track %d in that segment sum to %d", k, r.Duration, ref.ID, d))
+			e.keyFrags = nil
 			return
 		}
 	}
@@ -750,7 +994,9 @@ func (e *env) checkIndex(tag string, out []byte, f *mp4.File, part partition, ha
 			e.c.Count("oracle3_ept_not_compared", 1)
 		default:
 			if want := uint64(int64(ss[0].DecodeTime) + int64(ss[0].Cto)); sx.EarliestPresentationTime != want {
+				e.keyFrags, e.keyRefTrafs = part[0][:1], true
 				e.viol("sidx/"+tag+"/ept", fmt.Sprintf("earliest_presentation_time %d, first presentation time of track %d is %d", sx.EarliestPresentationTime, ref.ID, want))
+				e.keyFrags, e.keyRefTrafs = nil, false
 				return
 			}
 		}
